@@ -291,6 +291,9 @@ def run_op_kw(inp, seq, op):
     if n == "add_eom":
         kw = {k: val(inp, v) for k, v in (dict(op[5]) if len(op) > 5 else {}).items()}
         return seq.add_eom_pulse(channel=op[1], duration=val(inp, op[2]), phase=val(inp, op[3]), **kw)
+    if n == "add_eom_pos":
+        names = ("channel", "duration", "phase", "post_phase_shift", "protocol", "correct_phase_drift")
+        return seq.add_eom_pulse(**{k: val(inp, v) for k, v in zip(names, op[1:])})
     if n == "config_slm":
         return seq.config_slm_mask(qubits=op[1], **({"dmm_id": op[2]} if len(op) > 2 else {}))
     if n == "config_dmap":
@@ -344,6 +347,8 @@ def run_op(inp, seq, op):
     if n == "disable_eom":
         kw = dict(op[2]) if len(op) > 2 else {}
         return seq.disable_eom_mode(op[1], **kw)
+    if n == "add_eom_pos":  # every argument positional (4, 5 or 6 of them)
+        return seq.add_eom_pulse(*[val(inp, v) for v in op[1:]])
     if n == "add_eom":
         kw = dict(op[5]) if len(op) > 5 else {}
         kw = {k: val(inp, v) for k, v in kw.items()}
